@@ -78,7 +78,8 @@ def read_sensornet_files(
         # sort based on dates in filesname. A simple sorted() is not sufficient
         # as month folders do not sort well
         basenames = [os.path.basename(fp) for fp in filepathlist_unsorted]
-        dates = ["".join(bn.split(" ")[2:4]) for bn in basenames]
+        # date, time or run number, and the running file number
+        dates = ["".join(bn.split(" ")[2:5]) for bn in basenames]
         i_sort = np.argsort(dates)
         filepathlist = [filepathlist_unsorted[i] for i in i_sort]
 
